@@ -1206,11 +1206,10 @@ Qed.
 Lemma Q_set_tr_ext s l : forallb (fun e => negb (is_tgt e)) l = true -> QWF s -> QWF (set_tr s (l ++ tr s)).
 Proof. intros NT H. transport_tac. split; [simpl; lia | exists l; split; [reflexivity | apply fresh_notgt; auto]]. Qed.
 
-Lemma handle_wf m k0 s pre s' : WF (m :: k0) s -> handle m s = (pre, s') -> WF (pre ++ k0) s'.
+Lemma handle_res m k0 s pre s' : WF (m :: k0) s -> handle m s = (pre, s') -> res_ok s pre s'.
 Proof.
   intros [K H] E. inversion K as [|? ? MW K0]; subst.
-  assert (FIN : res_ok s pre s' -> WF (pre ++ k0) s').
-  { intros (A & B & C). split; auto. apply kwf_app. split; auto. eapply kwf_mono; eauto. }
+  assert (FIN : res_ok s pre s' -> res_ok s pre s') by auto.
   destruct m; simpl in E.
   - (* MTop *)
     apply FIN. unfold do_top in E. destruct o.
@@ -1348,6 +1347,19 @@ Proof.
     destruct (fold_emit_opt_wf (class_flag (actors s)) (actors s) (class_flag_notgt (actors s)) s H) as [A B]. fold (class_flags s) in A, B.
     split; [apply Q_set_tr_ext; [apply leaks_notgt | auto]|]. split; [|apply kwf_nil].
     eapply sle_trans; [exact B|]. split; [simpl; lia|]. eexists. split; [reflexivity | apply fresh_notgt, leaks_notgt].
+Qed.
+
+Lemma handle_wf m k0 s pre s' : WF (m :: k0) s -> handle m s = (pre, s') -> WF (pre ++ k0) s'.
+Proof.
+  intros W E. destruct (handle_res _ _ _ _ _ W E) as (A & B & C). destruct W as [K H]. inversion K as [|? ? MW K0]; subst.
+  split; auto. apply kwf_app. split; auto. eapply kwf_mono; eauto.
+Qed.
+
+(* the new trace extends the old one, and its target events are about uids handed out by this step *)
+Lemma step_sle k s k' s' : WF k s -> step k s = Some (k', s') -> sle s s'.
+Proof.
+  intros W H. destruct k as [|m k0]; [discriminate|]. simpl in H.
+  destruct (handle m s) as [pre s1] eqn:E. inversion H; subst. apply (handle_res _ _ _ _ _ W E).
 Qed.
 
 Theorem step_WF k s k' s' : WF k s -> step k s = Some (k', s') -> WF k' s'.
